@@ -163,23 +163,12 @@ func runC17(e *Engine, r *Report) {
 	}
 	if isPaused := r.need("(*internal/raft.remote).isPaused"); isPaused != nil {
 		// paused exactly for wait and snapshot
-		paused := map[string]bool{}
 		stT := e.Named("internal/raft", "remoteStateType")
-		forEachInstr(isPaused, func(in ssa.Instruction) {
-			ret, ok := in.(*ssa.Return)
-			if !ok {
-				return
-			}
-			if cb, isC := isConstBool(retOperand(ret, 0)); isC && cb {
-				for _, f := range FactsAt(in) {
-					if b, ok := f.V.(*ssa.BinOp); ok && b.Op.String() == "==" && f.Pol {
-						if c, ok := b.Y.(*ssa.Const); ok && stT != nil {
-							paused[constNameByVal(e.pkgTypes("internal/raft"), stT, c)] = true
-						}
-					}
-				}
-			}
-		})
+		stateF := e.Field("internal/raft", "remote", "state")
+		paused := map[string]bool{}
+		if stT != nil && stateF != nil {
+			paused = e.enumCasesReturning(isPaused, stT, e.pkgTypes("internal/raft"), fieldV(stateF), 0, true)
+		}
 		r.check(keysOf(paused) == "remoteSnapshot,remoteWait", "MPT-unpause", "paused states are exactly wait and snapshot", e.pos(isPaused.Pos()), "both have periodic exits (above)", "the set of paused remote states changed to {"+keysOf(paused)+"}: a new paused state needs an exit trigger")
 	}
 	// ---- NoOP reply for lower-term leader messages
